@@ -321,7 +321,19 @@ class World:
     def cert_der_to_dict(self, der):
         if not der:
             return {}
-        return {'subject': tuple(tuple((a.decode(), v.decode()) for a, v in rdn) for rdn in self.case['peer'])}
+        # like ssl's decoded certificate: the subject AND the names the origin's certificate is valid for (round-3 seed
+        # C11-r3-2 copied these into the generated certificate instead of naming the CONNECT host)
+        def is_ip(n):
+            import ipaddress
+            try:
+                ipaddress.ip_address(n); return True
+            except ValueError:
+                return False
+        san = tuple(('IP Address' if is_ip(n.decode('latin-1')) else 'DNS', n.decode('latin-1')) for n in self.case.get('names', []))
+        d = {'subject': tuple(tuple((a.decode(), v.decode()) for a, v in rdn) for rdn in self.case['peer'])}
+        if san:
+            d['subjectAltName'] = san
+        return d
 
     # ---- openssl
     def run_openssl_command(self, command, timeout):
